@@ -7,7 +7,6 @@ import (
 	"io"
 	"os"
 	"os/exec"
-	"regexp"
 	"runtime"
 	"runtime/metrics"
 	"strconv"
@@ -382,16 +381,5 @@ func replayCorrupt(raw []byte) string {
 	return "no result line"
 }
 
-var reSigNums = regexp.MustCompile(`\[[0-9:x]*\]|[0-9]+`)
-
-// normSig drops indices, lengths and capacities from panic texts so that one faulty site is one signature.
-func normSig(sig string) string {
-	if !strings.Contains(sig, "panic") {
-		return sig
-	}
-	s := reSigNums.ReplaceAllString(sig, "")
-	s = strings.ReplaceAll(s, " with length ", "")
-	s = strings.ReplaceAll(s, " with capacity ", "")
-	s = strings.ReplaceAll(s, "runtime error: ", "")
-	return strings.Join(strings.Fields(s), " ")
-}
+// normSig: see ev.NormSig (kept for the worker side, which reports raw signatures to the parent).
+func normSig(sig string) string { return ev.NormSig(sig) }
